@@ -70,6 +70,21 @@ def xnOverD (x n d : Int) : Int × Int × Bool :=
 
 /-! ## §440–§445 `scan_int` -/
 
+/-- §445: which token is a digit of the radix. `if (cur_tok<zero_token+radix) and
+(cur_tok>=zero_token) and (cur_tok<=zero_token+9) then d:=cur_tok-zero_token else if radix=16
+then if (cur_tok<=A_token+5) and (cur_tok>=A_token) then d:=cur_tok-A_token+10 else if
+(cur_tok<=other_A_token+5) and (cur_tok>=other_A_token) then d:=cur_tok-other_A_token+10 else
+goto done else goto done`. `zero_token`, `other_A_token` have category other, `A_token`
+category letter: only the upper-case `A`–`F` are hexadecimal digits. -/
+def constDigit (radix : Int) (c : Char) (letter : Bool) : Option Nat :=
+  let tok : Int := c.toNat
+  if !letter ∧ tok < 48 + radix ∧ tok ≥ 48 ∧ tok ≤ 48 + 9 then some (c.toNat - 48)
+  else if radix = 16 then
+    if letter ∧ tok ≤ 65 + 5 ∧ tok ≥ 65 then some (c.toNat - 65 + 10)
+    else if !letter ∧ tok ≤ 65 + 5 ∧ tok ≥ 65 then some (c.toNat - 65 + 10)
+    else none
+  else none
+
 /-- §445 on a digit list: `(cur_val, OK_so_far)`. -/
 def accumulate (radix : Int) (m : Int) : List Nat → Int → Bool → Int × Bool
   | [], cv, ok => (cv, ok)
